@@ -8,7 +8,7 @@ cp -r /repo/seismic_zfp "$SCR/seismic_zfp"
 cp -r /repo/test_data "$SCR/test_data" 2>/dev/null
 ( cd "$SCR" && patch -p1 -s < "$PATCH" ) || { echo "PATCH-FAILED $PATCH"; rm -rf "$SCR"; exit 9; }
 for P in "$@"; do
-  OUT=$(cd /verif && VERIF_REPO="$SCR" VERIF_EVIDENCE_DIR="$SCR/evidence" ./check "$P" --tier quick --no-bounded 2>&1 | grep -v conda)
+  OUT=$(cd /verif && VERIF_REPO="$SCR" VERIF_EVIDENCE_DIR="$SCR/evidence" ./check "$P" --tier quick 2>&1 | grep -v conda)
   CODE=$?
   echo "$OUT" | grep -E "^\[|VIOLATION|UNDECIDED|CHECKER-ERROR" | head -8
   echo "== $P exit-lines done"
